@@ -655,20 +655,6 @@ fn oracle(
     fails
 }
 
-/// Mirror of `is_single_line_comment` in src/generator/token_based.rs, to delimit finding F27: a line
-/// comment `--[` + up to three bytes + `[` (or `--[` `=`* … `[`) is taken for a long comment, so the
-/// generator does not break the line before what follows it.
-fn generator_takes_for_long(comment: &[u8]) -> bool {
-    let s = String::from_utf8_lossy(comment);
-    if !s.starts_with("--[") {
-        return false;
-    }
-    match s.chars().skip(3).enumerate().find(|(_, c)| *c == '[') {
-        Some((i, _)) => s.get(3..i).map(|sub| sub.chars().all(|c| c == '=')).unwrap_or(true),
-        None => false,
-    }
-}
-
 fn is_long_comment(comment: &[u8]) -> bool {
     // `--[` `=`* `[`
     if !comment.starts_with(b"--[") {
@@ -677,11 +663,6 @@ fn is_long_comment(comment: &[u8]) -> bool {
     let rest = &comment[3..];
     let k = rest.iter().take_while(|b| **b == b'=').count();
     rest.get(k) == Some(&b'[')
-}
-
-/// a line comment the generator misclassifies (F27)
-fn f27_trigger(l: &Lexed) -> bool {
-    l.coms.iter().any(|c| !is_long_comment(&c.0) && generator_takes_for_long(&c.0))
 }
 
 /// F29: a `-` operator directly followed (whitespace aside) by a comment: without the whitespace the
@@ -878,14 +859,6 @@ fn judge(ctx: &mut Ctx, case: &Case, witness_mode: bool) -> Outcome {
                         continue;
                     }
                 }
-                // F27 at the end of a file: the last comment of the file, or the appended comment itself, is a
-                // line comment the generator takes for a long one; what is written next is glued to it
-                if *loc == Loc::End
-                    && (f27_trigger(&lbase) || (!is_long_comment(&ct) && generator_takes_for_long(&ct)))
-                {
-                    o.count("oracle_fails_in_F27_region");
-                    continue;
-                }
                 if witness_mode {
                     continue;
                 }
@@ -997,13 +970,12 @@ fn judge(ctx: &mut Ctx, case: &Case, witness_mode: bool) -> Outcome {
                 && expected_survivors(rule, &with_cr).iter().map(|c| c[..c.len() - 1].to_vec()).collect::<Vec<_>>() != expected;
             o.hist("remove_crlf", if crlf_sensitive { "CRLF file and a pattern whose verdict would change with the CR" } else { "other" });
             let spaces = rule.has_spaces();
-            let f27 = spaces && (f27_trigger(&lbase) || f29_trigger(&lbase) || f30_trigger(&lbase));
+            // (F27 is fixed: line comments such as `--[abc[ x` are no longer excused)
+            let f27 = spaces && (f29_trigger(&lbase) || f30_trigger(&lbase));
             if spaces {
                 o.hist(
                     "remove_spaces_region",
-                    if f27_trigger(&lbase) {
-                        "a line comment the generator takes for a long one (F27)"
-                    } else if f29_trigger(&lbase) {
+                    if f29_trigger(&lbase) {
                         "`-` directly before a comment (F29)"
                     } else if f30_trigger(&lbase) {
                         "line comment directly before `...` (F30)"
@@ -1015,7 +987,7 @@ fn judge(ctx: &mut Ctx, case: &Case, witness_mode: bool) -> Outcome {
             if !witness_mode {
                 for (name, what) in &fails {
                     if f27 {
-                        o.count("oracle_fails_in_F27_F29_F30_region");
+                        o.count("oracle_fails_in_F29_F30_region");
                         continue;
                     }
                     o.violate("oracle", &format!("remove_{}", name), what.clone(), case, true);
